@@ -960,6 +960,20 @@ fn mutations(rng: &mut Rng, b: &Base, unsigned: &GReq, signed: &GReq, expires: &
                 out(&r, "reject", &format!("dup-{}", name.to_ascii_lowercase()));
             }
         }
+        if rng.chance(1, 2) {
+            // the Signature parameter sent twice (the right one twice, or another value after / before it): signature
+            // material that cannot be verified is refused, not passed on as an anonymous request
+            let d = signed.query.iter().find(|p| p.k == "Signature").unwrap().clone();
+            let mut r = signed.clone();
+            r.query.push(d.clone());
+            out(&r, "reject", "dup-signature");
+            let mut r = signed.clone();
+            r.query.push(qp("Signature", "AAAAAAAAAAAAAAAAAAAAAAAAAAA="));
+            out(&r, "reject", "dup-signature");
+            let mut r = signed.clone();
+            r.query.insert(0, qp("Signature", "AAAAAAAAAAAAAAAAAAAAAAAAAAA="));
+            out(&r, "reject", "dup-signature");
+        }
         {
             // the signature parameter spelled with one more level of percent-encoding
             let mut r = signed.clone();
